@@ -158,3 +158,83 @@ Definition or_admits (c : doccase) : bool :=
                   | Some ps => forallb (admits_b o ps) (dc_docs c)
                   | None => false end) (dc_renders c)
   else true.
+
+(* C14 *)
+Definition or_names (c : doccase) : bool :=
+  match dc_impl c with
+  | ITree e => if tree_names_ok e then
+                 forallb (fun '(o, _, p) => match p with Some ps => names_b o e ps | None => false end)
+                         (dc_renders c)
+               else true
+  | _ => true
+  end.
+
+(* C09: renderings come in pairs (Unsorted, XmlName) with otherwise equal options *)
+Fixpoint pairs_ok {A} (f : A -> A -> bool) (l : list A) : bool :=
+  match l with
+  | a :: b :: r => f a b && pairs_ok f r
+  | _ => true end.
+Definition or_only_order (c : doccase) : bool :=
+  pairs_ok (fun '(_, _, p) '(_, _, q) =>
+              match p, q with Some a, Some b => only_order_b a b | _, _ => false end) (dc_renders c).
+
+(* C10 *)
+Definition sort_eqb (a b : sortby) : bool :=
+  match a, b with Unsorted, Unsorted | XmlName, XmlName => true | _, _ => false end.
+Definition or_derive (c : doccase) : bool :=
+  forallb (fun '(o, _, p) => match p with Some ps => derive_b o ps | None => false end) (dc_renders c).
+Definition or_orthogonal (c : doccase) : bool :=
+  forallb (fun '(o1, _, p1) =>
+             forallb (fun '(o2, _, p2) =>
+                        negb (sort_eqb (sort o1) (sort o2))
+                        || match p1, p2 with
+                           | Some a, Some b => erased_eqb (erase_bindings a) (erase_bindings b)
+                           | _, _ => false end) (dc_renders c)) (dc_renders c).
+
+(* C08: the verdict is the one of a flat left-to-right scan of the reader events *)
+Definition event_fault (ev : event) : option perror :=
+  match ev with
+  | EStart n attrs | EEmpty n attrs =>
+      match n with
+      | RBad id => Some (FromUtf8Error id)
+      | ROk _ => match attr_keys attrs with inl e => Some e | inr _ => None end
+      end
+  | EText (RBad id) | ECData (RBad id) => Some (FromUtf8Error id)
+  | EErr p id => Some (QuickXmlError p id)
+  | _ => None
+  end.
+Fixpoint first_fault (evs : list event) : option perror :=
+  match evs with
+  | [] => None
+  | ev :: r => match event_fault ev with Some e => Some e | None => first_fault r end
+  end.
+Definition has_element (evs : list event) : bool :=
+  existsb (fun ev => match ev with EStart _ _ | EEmpty _ _ => true | _ => false end) evs.
+Definition perror_matches (e : perror) (i : iresult) : bool :=
+  match e, i with
+  | QuickXmlError p x, IErrQuickXml p' x' => (p =? p') && (x =? x')
+  | FromUtf8Error x, IErrUtf8 x' => x =? x'
+  | AttrError x, IErrAttr x' => x =? x'
+  | NoRootError, IErrNoRoot => true
+  | _, _ => false
+  end.
+(* expected verdict of parse(D1), extend(D2)...: the first document with a fault (or, for
+   D1, without any element) decides; otherwise Ok *)
+Fixpoint expected_verdict (first : bool) (docs : list (list event)) : option perror :=
+  match docs with
+  | [] => None
+  | d :: r =>
+      match first_fault d with
+      | Some e => Some e
+      | None => if first && negb (has_element d) then Some NoRootError
+                else expected_verdict false r
+      end
+  end.
+Definition or_verdict (c : doccase) : bool :=
+  match expected_verdict true (dc_events c) with
+  | Some e => perror_matches e (dc_impl c)
+  | None => match dc_impl c with ITree _ => true | _ => false end
+  end.
+(* C07: never a panic / hang / unclassifiable outcome *)
+Definition or_total (c : doccase) : bool :=
+  match dc_impl c with IOther => false | _ => true end.
